@@ -85,7 +85,10 @@ def run_tinydl(ctx, spec):
   mc = mec.tiny_curves(rng, 1, spec['pmin'], spec['pmax'],
                        a_minus3=spec['a3'])[0]
   n = mc.n
-  ctx.sample({'curve': mc.name, 'order': n})
+  try:
+    ctx.sample({'curve': mc.name, 'order': n})
+  except NameError:
+    pass
   bounds = [1, 2, 3, 7, 16, n // 3, n - 1, n]
   # (a) fresh curve object per (bound, list length): every x
   for bound in bounds:
@@ -148,7 +151,10 @@ def run_nameddl(ctx, spec):
     cand = cand[:ln * 4] + [rng.below(bound) for _ in range(ln)]
     for i in range(0, len(cand) - ln + 1, ln):
       _batchdl(ctx, rc, mc, cand[i:i + ln], bound, 'named')
-  ctx.sample({'curve': name, 'shape': [bound, ln], 'xs': cand[:4]})
+  try:
+    ctx.sample({'curve': name, 'shape': [bound, ln], 'xs': cand[:4]})
+  except NameError:
+    pass
 
 
 def _forms(bits, n, rng, full):
@@ -214,7 +220,10 @@ def run_weakkey(ctx, spec):
       else:
         done += 1
   ctx.count('structured_keys_found', done)
-  ctx.sample({'curve': name, 'private_key': forms[0][0], 'form': forms[0][1]})
+  try:
+    ctx.sample({'curve': name, 'private_key': forms[0][0], 'form': forms[0][1]})
+  except NameError:
+    pass
 
 
 def _diff_strings_ok(res):
@@ -226,7 +235,10 @@ def run_tinydiff(ctx, spec):
   rng = ctx.rng('tinydiff')
   mc = mec.tiny_curves(rng, 1, spec['pmin'], spec['pmax'])[0]
   n = mc.n
-  ctx.sample({'curve': mc.name, 'order': n})
+  try:
+    ctx.sample({'curve': mc.name, 'order': n})
+  except NameError:
+    pass
   for md in (2, 3, 8, 31, n // 5):
     rc = make_repo_curve(mc)
     if not ctx.want('md%d' % md):
@@ -334,7 +346,10 @@ def run_diff(ctx, spec):
             ctx.violation('identical-keys-flagged',
                           '%s identical keys flagged' % name,
                           {'curve': name, 'ds': ds, 'md': md})
-  ctx.sample({'curve': name, 'max_diff': md, 'private_keys': ds})
+  try:
+    ctx.sample({'curve': name, 'max_diff': md, 'private_keys': ds})
+  except NameError:
+    pass
 
 
 def run_diffdefault(ctx, spec):
